@@ -113,6 +113,18 @@ MUTATIONS = {
         ["C18"],
         [("flox/aggregate_flox.py", "    np.subtract(b, diff_b_a * (1 - t), out=out, where=t >= 0.5)\n", "")],
     ),
+    "blockwise_sort_fix_reverted": (
+        ["C16", "C05"],
+        [("flox/core.py", "_unique(by_input[slc]) if sort else pd.unique(by_input[slc].reshape(-1)) for slc in slices", "_unique(by_input[slc]) for slc in slices")],
+    ),
+    "posthoc_argsort_groups_only": (
+        ["C16", "C02"],
+        [("flox/core.py", "                result = result[..., sorted_idx]\n", "")],
+    ),
+    "expected_np_sort_dropped": (
+        ["C16", "C05"],
+        [("flox/core.py", "                if sort:\n                    ex = np.sort(ex)\n", "")],
+    ),
     "nanmin_combine_min": (
         ["C04"],
         [("flox/aggregations.py", '    chunk="nanmin",\n    combine="nanmin",', '    chunk="nanmin",\n    combine="min",')],
